@@ -146,7 +146,11 @@ theorem C23_effect_guards_gen (n : NodeKeyResp) :
     Gen.KeyStream.errGuard n = !n.result ∧
     Gen.KeyStream.msgGuard n = (!n.result || (n.result && decide (n.message.length > 0))) ∧
     Gen.KeyStream.keysGuard n = true ∧ Gen.KeyStream.primaryGuard n = true := by
-  simp [Gen.KeyStream.errGuard, Gen.KeyStream.msgGuard, Gen.KeyStream.keysGuard, Gen.KeyStream.primaryGuard]
+  -- by cases on the two facts the guards can depend on, so that any equivalent way of writing the ifs
+  -- (flipped condition with swapped branches, else-if, merged or split tests) still proves
+  obtain ⟨res, msg, ks, p⟩ := n
+  cases res <;> by_cases hm : msg.length > 0 <;>
+    simp [Gen.KeyStream.errGuard, Gen.KeyStream.msgGuard, Gen.KeyStream.keysGuard, Gen.KeyStream.primaryGuard, hm]
 
 /-- … hence the transcribed loop body is the source's. -/
 theorem C23_step_gen (resp : KeyResponse) (r : NR) :
@@ -157,8 +161,9 @@ theorem C23_step_gen (resp : KeyResponse) (r : NR) :
   | badType => rfl
   | undecodable => rfl
   | decoded n =>
-    cases hr : n.result <;> by_cases hm : n.message.length > 0 <;>
-      simp [Gen.KeyStream.errGuard, Gen.KeyStream.msgGuard, Gen.KeyStream.keysGuard, Gen.KeyStream.primaryGuard, hr, hm]
+    obtain ⟨h1, h2, h3, h4⟩ := C23_effect_guards_gen n
+    simp only [h1, h2, h3, h4]
+    cases hr : n.result <;> by_cases hm : n.message.length > 0 <;> simp [hr, hm]
 
 /-- The error checks of `handleKeyRequest` as written: first `NumErr != 0`, then `NumResp != NumNodes`
 (the order `keyRequestError` transcribes), with `NumNodes` taken from memberlist before the replies are read. -/
